@@ -112,6 +112,38 @@ type recorder struct {
 	start time.Time
 	pass  int
 	evs   []ev
+	// stagnation guard: source requests / fetchTail rounds since the run last made progress (a scripted
+	// fault was consumed, a new index reached the destination, the source grew, the sequencer advanced, a
+	// scheduled cancellation or mastership change happened). All of these are finite, so a run that goes
+	// on for ever eventually stagnates; virtual time alone (a few ms per round) cannot end such a loop.
+	idleReqs  int
+	idleTails int
+	tripped   bool
+}
+
+const (
+	idleReqLimit  = 25000
+	idleTailLimit = 1500
+)
+
+func (r *recorder) progress() { r.mu.Lock(); r.idleReqs, r.idleTails = 0, 0; r.mu.Unlock() }
+
+// idle counts one more request / round without progress; it reports (limit passed, first time, hopeless).
+func (r *recorder) idle(tail bool) (over, first, dead bool) {
+	r.mu.Lock()
+	defer r.mu.Unlock()
+	if tail {
+		r.idleTails++
+	} else {
+		r.idleReqs++
+	}
+	over = r.idleReqs > idleReqLimit || r.idleTails > idleTailLimit
+	first = over && !r.tripped
+	if over {
+		r.tripped = true
+	}
+	dead = r.idleReqs > 3*idleReqLimit || r.idleTails > 3*idleTailLimit
+	return
 }
 
 func (r *recorder) add(e ev) {
@@ -119,12 +151,19 @@ func (r *recorder) add(e ev) {
 	e.T = time.Since(r.start)
 	e.Pass = r.pass
 	r.evs = append(r.evs, e)
+	switch {
+	case e.Kind == "cancel" || e.Kind == "grant" || e.Kind == "revoke":
+		r.idleReqs, r.idleTails = 0, 0
+	case (e.Kind == "sth" || e.Kind == "cons" || e.Kind == "entries") && e.Fault != fNone:
+		r.idleReqs, r.idleTails = 0, 0
+	case e.Kind == "add" && e.Status != 0:
+		r.idleReqs, r.idleTails = 0, 0
+	}
 	r.mu.Unlock()
 }
 
 func (r *recorder) setPass(p int) { r.mu.Lock(); r.pass = p; r.mu.Unlock() }
 
-const requestBudget = 60000
 
 // source is the scripted RFC 6962 log: a reference log (internal/reflog) holding the leaves announced
 // so far, served through the three read endpoints Migrillian uses. Every decision is a function of the
@@ -147,8 +186,6 @@ type source struct {
 	maxSTH    int // largest genuine tree size handed out (-1: none)
 	servable  int // largest tree size any answer (genuine or forged) has spoken of: the log serves up to here
 	perStart  map[int64]int
-	total     int
-	stormed   bool
 }
 
 func newSource(c *Case, tr []truth, rec *recorder, abort func(string)) *source {
@@ -227,14 +264,7 @@ func b64(b []byte) string { return base64.StdEncoding.EncodeToString(b) }
 
 func (s *source) RoundTrip(req *http.Request) (*http.Response, error) {
 	ctx := req.Context()
-	s.mu.Lock()
-	s.total++
-	over, first, dead := s.total > requestBudget, !s.stormed, s.total > 3*requestBudget
-	if over {
-		s.stormed = true
-	}
-	s.mu.Unlock()
-	if over {
+	if over, first, dead := s.rec.idle(false); over {
 		if first {
 			s.abort("request-storm")
 		}
@@ -314,6 +344,9 @@ func (s *source) getSTH(ctx context.Context, req *http.Request) (*http.Response,
 		root := s.log.Tree().Root(size) // the log may already hold more (a forged head spoke of its future)
 		body := mk(uint64(size), t0+uint64(size), [32]byte(root), s.key)
 		s.genuine++
+		if size > s.maxSTH {
+			s.rec.progress()
+		}
 		s.maxSTH = size
 		if size > s.servable {
 			s.servable = size
